@@ -15,7 +15,7 @@ ID = 'C03'
 LEVEL = 'exploration'
 WORKERS = {'quick': 6, 'thorough': 14}
 BUDGET_S = {'quick': 45, 'thorough': 360}
-REQUIRED_COUNTERS = ['entries_compared', 'nan_entries_expected', 'layout_entries', 'cases_with_constant_columns', 'large_trace_count_cases', 'data_layout:F', 'data_layout:strided']
+REQUIRED_COUNTERS = ['entries_compared', 'nan_entries_expected', 'layout_entries', 'cases_with_constant_columns', 'large_trace_count_cases', 'data_layout:F', 'data_layout:strided', 'wide_word_cases']
 RULE = ('a case = (cpa | cpa_alt | dpa, precision, regime E (integer-valued, every sum and every product formed in compute exactly '
         'representable) or R (float traces, offsets 0/50/1000), n in 2..3000, samples 1..12, word shape () .. (3,2), trace dtype, data '
         'dtype, degenerate structure: constant samples / constant words / all-0 or all-1 bits / none, one update or several batches); '
@@ -41,6 +41,11 @@ def cases(tier, seed):
         bigs += [('dpa', 'float64', 300000), ('cpa', 'float32', 200000), ('cpa_alt', 'float32', 140000), ('dpa', 'float32', 70000), ('cpa', 'float64', 300000)]
     for name, prec, n in bigs:
         out.append(dict(gen='stat', subject=name, precision=prec, regime='E', degen='none', big=n, sub=core.subseed('C03big', seed, name, prec, n), must=True))
+    # many intermediate words (guesses x words of a real attack: hundreds), counts around the powers of two
+    wides = [(300,), (3, 100), (257,), (2, 256), (513,), (255,), (1, 1024), (64, 5)]
+    for j, ws in enumerate(wides if tier != 'quick' else wides[:5]):
+        for name in ('cpa', 'cpa_alt', 'dpa'):
+            out.append(dict(gen='stat', subject=name, precision=['float32', 'float64'][j % 2], regime='E', degen='none', wide=list(ws), sub=core.subseed('C03w', seed, name, j), must=True))
     rs = np.random.default_rng(core.subseed('C03r', seed))
     n_rand = 4000 if tier == 'quick' else 60000
     for j in range(n_rand):
@@ -58,6 +63,10 @@ def run_case(case):
     n = int(rng.choice([2, 3, 4, 7, 16, 50, 130, 400, 1000, 3000]))
     T = int(rng.integers(1, 13))
     ws = gen.WORD_SHAPES[int(rng.integers(len(gen.WORD_SHAPES)))]
+    if case.get('wide'):
+        ws = tuple(case['wide'])
+        n, T = int(rng.choice([5, 20, 60])), int(rng.integers(1, 4))
+        t.count('wide_word_cases')
     big = case.get('big')
     if big:
         n, T = int(big), 2
